@@ -7,6 +7,7 @@ package webp
 
 import (
 	"bytes"
+	"encoding/binary"
 	"errors"
 	"fmt"
 	"image"
@@ -216,13 +217,30 @@ func encodeFrameForAnimation(img image.Image, isLossless bool, quality int) ([]b
 		Lossless: isLossless,
 		Quality:  float32(quality),
 		Method:   4,
+		// Alpha is coded as for still images: lossless, default filter.
+		AlphaCompression: -1,
+		AlphaFiltering:   -1,
+		AlphaQuality:     -1,
 	}
 	if isLossless {
 		bs, _, err := encodeLossless(img, opts)
 		return bs, err
 	}
-	bs, _, err := encodeLossy(img, opts)
-	return bs, err
+	bs, alphaData, _, err := encodeLossyWithAlpha(img, opts)
+	if err != nil || len(alphaData) == 0 {
+		return bs, err
+	}
+	// The muxer expects a lossy frame's alpha plane as an ALPH chunk in front
+	// of the VP8 data (see mux.splitAlphaAndBitstream); without it the frame
+	// plays back opaque.
+	out := make([]byte, 0, container.ChunkHeaderSize+len(alphaData)+1+len(bs))
+	out = binary.LittleEndian.AppendUint32(out, container.FourCCALPH)
+	out = binary.LittleEndian.AppendUint32(out, uint32(len(alphaData)))
+	out = append(out, alphaData...)
+	if len(alphaData)&1 != 0 {
+		out = append(out, 0)
+	}
+	return append(out, bs...), nil
 }
 
 // simpleEncodeForAnimation encodes an image as a complete simple (non-animated)
